@@ -350,7 +350,7 @@ func (this *ANSRangeEncoder) encodeChunk(block []byte) {
 			n, st2 = this.encodeSymbol(n, st2, symb[block[i-2]])
 			n, st3 = this.encodeSymbol(n, st3, symb[block[i-3]])
 		}
-	} else if len(block) > 1 { // order 1
+	} else if end4 > 0 { // order 1
 		quarter := end4 >> 2
 		i0 := 1*quarter - 2
 		i1 := 2*quarter - 2
